@@ -28,11 +28,34 @@ SNAPSHOT_STRICT = False
 CORR_BASE = "From RlibV Require Import C20.Model C20.Corr.\n"
 CORR_IMPORT = CORR_BASE + "From RlibV Require Import C20.Current.\nDefinition model_check := model_check_with current_macros.\n" \
                           "Definition explain := explain_with current_macros.\nOpen Scope N_scope."
-AUDIT_IMPORT = "From Coq Require Import List NArith Bool.\nImport ListNotations.\nFrom RlibV Require Import C20.Model C20.Corr C20.Current C20.Properties."
+AUDIT_IMPORT = "From Coq Require Import List NArith Bool.\nImport ListNotations.\nFrom RlibV Require Import C20.Model C20.Spec C20.Corr C20.Current C20.Properties."
 HARNESS_ENV = {}
 
+BODY_T = "selfT V -> list V -> list N -> list N -> store V -> option (V * store V)"
+SEM = ("forall (V : Type) (body : %s), body_ext V body -> forall (n : nat) (syn : bool) (args : list V) (st : store V), "
+       "closure V body s e n args st = hand V body s n syn args st" % BODY_T)
+CORRECT = ("forall s : shape, sh_args s <> [] -> NoDup (all_names s) -> exists e, expand %s s = Some e /\\ consistent s e "
+           "/\\ (forall (X : Type) (es : list (X + N)), call_plain e es = call_trailing e es) /\\ " + SEM)
 THEOREMS = [
+    ("c20_expand_total", "forall (ms : macros) (s : shape), well_formed ms = true -> sh_args s <> [] -> exists e, expand ms s = Some e"),
+    ("c20_positional_consistency", "forall (ms : macros) (s : shape), well_formed ms = true -> sh_args s <> [] -> "
+                                   "exists e, expand ms s = Some e /\\ consistent s e"),
+    ("c20_call_syntaxes_agree", "forall (ms : macros) (s : shape) (e : expansion) (X : Type) (es : list (X + N)), "
+                                "well_formed ms = true -> sh_args s <> [] -> expand ms s = Some e -> call_plain e es = call_trailing e es"),
+    ("c20_semantics", "forall (ms : macros) (s : shape) (e : expansion), well_formed ms = true -> sh_args s <> [] -> "
+                      "expand ms s = Some e -> NoDup (all_names s) -> " + SEM),
     ("c20_current_well_formed", "well_formed current_macros = true"),
+    ("c20_current_order", "forall s : shape, sh_args s <> [] -> expand current_macros s = Some (emit (m_final current_macros) "
+                          "(mkAccs (rev (caps_of Shared s)) (rev (caps_of Mutable s)) (sh_args s)) (ret_ty (sh_ret s)))"),
+    ("c20_current_correct", CORRECT % "current_macros"),
+    ("c20_observed_item_correct",
+     "forall (ms : macros) (s : shape) (trailing compiled : bool) (e' : expansion) (calls : list (list (N + N))) "
+     "(rm rh : list BinNums.Z), well_formed ms = true -> sh_args s <> [] -> NoDup (all_names s) -> "
+     "model_check_with ms (Case s trailing (Some (e', calls)) compiled rm rh) = true -> consistent s e' /\\ "
+     "Forall (fun c => c = call_trailing e' (map inl (iota (length (sh_args s)) 0%N))) calls /\\ "
+     + SEM.replace(" s e n ", " s e' n ")),
+    ("c20_rustc_partial", "forall (ms : macros) (s : shape), well_formed ms = true -> sh_args s <> [] -> NoDup (all_names s) -> "
+                          "exists e, expand ms s = Some e /\\ " + SEM),
 ]
 
 RULE = ("invocation shapes of rec_lambda!: capture pattern over {&,&mut} (<= 4 captures, incl. none) x capture types {Vec<u64>,u64} x "
@@ -340,13 +363,18 @@ def translate(src):
         names.setdefault(role, callee)
     if "M0" not in names or "M1" not in names or names["M0"] == names["M1"]:
         raise Unclassifiable("the entry macro does not name two distinct munchers")
-    finals = [n for n in macros if n not in ("rec_lambda", names["M0"], names["M1"])]
-    if len(finals) != 1:
-        raise Unclassifiable("expected exactly one further macro (the final arm), found %s" % finals)
-    names["final"] = finals[0]
     for r in ("M0", "M1"):
         if names[r] not in macros:
             raise Unclassifiable("muncher %s not defined" % names[r])
+    # the final macro = the one macro the munchers call besides themselves (other macros in the file are ignored)
+    finals = set()
+    for r in ("M0", "M1"):
+        for _, trans in macros[names[r]]:
+            if trans[:3] == ["$", "crate", "::"] and len(trans) > 4 and trans[4] == "!" and trans[3] not in (names["M0"], names["M1"]):
+                finals.add(trans[3])
+    if len(finals) != 1 or list(finals)[0] not in macros:
+        raise Unclassifiable("expected exactly one final macro called by the munchers, found %s" % sorted(finals))
+    names["final"] = list(finals)[0]
     desc = {"entry": [(ep, "M0" if c == names["M0"] else "M1") for ep, c in entry]}
     for r in ("M0", "M1"):
         desc[r] = [classify_rule(names[r], k, m, t, names) for k, (m, t) in enumerate(macros[names[r]])]
@@ -406,6 +434,11 @@ def generate(rng, tier):
     if tier == "thorough":
         for p in pats:
             for n in (1, 2, 3, 4):
+                for ret in (0, 1):
+                    for syn in (0, 1):
+                        cases.append(mk(rng, p, n, ret, syn))
+        for p in all_patterns(5)[len(pats):]:     # beyond the stated quantifier: 5 captures, 2 and 5 arguments
+            for n in (2, 5):
                 for ret in (0, 1):
                     for syn in (0, 1):
                         cases.append(mk(rng, p, n, ret, syn))
@@ -644,7 +677,7 @@ def coqc(path, cwd):
 
 
 GEN_HEAD = ("From Coq Require Import List NArith Bool.\nImport ListNotations.\n"
-            "From RlibV Require Import C20.Model C20.Corr C20.Current C20.Properties.\n")
+            "From RlibV Require Import C20.Model C20.Spec C20.Corr C20.Current C20.Proofs C20.ProofsSem C20.Properties.\n")
 
 
 def prepare(ctx):
@@ -701,7 +734,7 @@ def prepare(ctx):
 
 
 # corollaries for the macros translated on this run (filled in as the generic theorems are proved)
-RUNTIME_COROLLARIES = ""
+RUNTIME_COROLLARIES = ("Theorem run_correct : %s.\nProof. exact (correct_of_wf run_macros current_ok). Qed.\n" % (CORRECT % "run_macros"))
 
 
 def battery(ctx, cases):
@@ -741,7 +774,7 @@ def extra(ctx, known):
         cov["note"] = "broken run-time obligations: %s; failing shapes were found among the generated cases" % (broken or "none")
     elif broken or differs:
         # search for a failing shape with the full battery (all 496 combinations)
-        cases = generate(Rng(ctx.seed + 7919).fork(ID), "thorough")
+        cases = generate(Rng(ctx.seed + 7919).fork(ID), "thorough")[:496]
         try:
             bad, n = battery(ctx, cases)
         except RuntimeError as e:
@@ -768,12 +801,27 @@ def extra(ctx, known):
 
 
 MANIFEST = {
-    "text": "rec_lambda!: a token-level Gallina model of macro_rules munchers; the description of the three macros is translated "
-            "from rlib/lambda/src/lib.rs on every run and proved well_formed by computation; generic theorems for every "
-            "well_formed macro set. Every generated shape is expanded by the real rustc (expansion compared with the model's "
-            "prediction inside Coq), compiled and run against the hand-written recursive function.",
-    "level_note": "PARTIAL (c20_rustc_partial): rustc's fragment parsing (ty, expr), hygiene, type and borrow checking are not "
-                  "modelled; they are covered only by the compile-and-run battery (sampled shapes).",
+    "text": "rec_lambda!: token-level Gallina model of macro_rules munchers (ordered rules, first match wins, three accumulator "
+            "lists, final arm). The description of the macros is TRANSLATED from rlib/lambda/src/lib.rs on every run, proved "
+            "well_formed by computation (run-time lemma current_ok) and compared with the pinned snapshot Current.v. Theorems "
+            "(Coq, no axioms) for EVERY well_formed macro set and every shape with >= 1 argument (any number/interleaving of "
+            "&/&mut captures incl. none, optional return type): c20_expand_total (munching never gets stuck), "
+            "c20_positional_consistency (fn signature, inner macro call and closure call use the three lists in the same "
+            "positions, each capture once with the right reference kind), c20_call_syntaxes_agree (f!(a,b) and f!(a,b,) reduce "
+            "to the same call), c20_semantics (expanded closure = hand-written recursive function in an open-recursion "
+            "semantics, all bodies/depths), c20_current_well_formed / c20_current_order (lists come out reversed) / "
+            "c20_current_correct for the snapshot, c20_observed_item_correct (the batch lemma carries all of this to the item "
+            "rustc really generated). Correspondence: every generated shape is expanded by the real rustc "
+            "(-Zunpretty=expanded; parameter list, both inner-macro transcribers, every expanded recursive call, closure "
+            "compared with the model's prediction inside Coq), compiled and run against the hand-written recursive fn "
+            "(results and final captured state).",
+    "level_note": "PARTIAL (c20_rustc_partial): the theorems are about the muncher model and its open-recursion semantics. NOT "
+                  "modelled: rustc's fragment parsing (ty, expr), hygiene/name resolution, type checking, borrow checking; "
+                  "'compiles' is established only for the sampled shapes by the compile-and-run battery (quick 86 shapes, "
+                  "thorough 752). Trusted: Coq kernel + vm_compute, the translator and expansion parser in checks/c20.py "
+                  "(cross-checked against rustc's expansion on every shape), the executor, rustc stable/nightly. A translation "
+                  "that differs from the snapshot but is proved well_formed at run time and passes the enlarged battery is "
+                  "reported in the evidence, not as a violation (SNAPSHOT_STRICT=False).",
     "technique": "Coq proof over a macro-muncher model generated from the source + real-expansion correspondence + compile-and-run battery",
 }
 
